@@ -74,6 +74,19 @@ ByteLevel(b, ns) ==
   \/ \E v \in {0, 255} : Step(M!AppendByte(b, v), Desc("append", Len(b), v, "end"))
   \/ \E v \in {0, 1, 2, 3, 4, 5, 6, 31, 48, 49, 63, 127, 128, 129, 132, 160, 255} : Step(<<v>>, Desc("onebyte", 0, v, "whole"))
 
+(* ... and transplanted from the public registries: every hash / signature identifier of the NIST, RSADSI, ANSI X9.62, OIW and  *)
+(* GM/T 0006 arcs (the code's tables know a subset; what they map an identifier to must exist)                                    *)
+RECURSIVE Arc128(_, _)
+Arc128(v, more) == IF v < 128 THEN <<v + (IF more THEN 128 ELSE 0)>> ELSE Arc128(v \div 128, TRUE) \o <<(v % 128) + (IF more THEN 128 ELSE 0)>>
+RECURSIVE ArcsEnc(_)
+ArcsEnc(a) == IF a = <<>> THEN <<>> ELSE Arc128(Head(a), FALSE) \o ArcsEnc(Tail(a))
+OidEnc(a) == <<40 * a[1] + a[2]>> \o ArcsEnc(SubSeq(a, 3, Len(a)))
+OidDict == {OidEnc(<<2, 16, 840, 1, 101, 3, 4, 2, x>>) : x \in 1..16} \cup {OidEnc(<<2, 16, 840, 1, 101, 3, 4, 3, x>>) : x \in 1..16}
+           \cup {OidEnc(<<1, 2, 840, 113549, 2, x>>) : x \in {2, 5, 7, 9, 11}} \cup {OidEnc(<<1, 2, 840, 113549, 1, 1, x>>) : x \in 1..14}
+           \cup {OidEnc(<<1, 2, 840, 10045, 4, 1>>)} \cup {OidEnc(<<1, 2, 840, 10045, 4, 3, x>>) : x \in 1..4} \cup {OidEnc(<<1, 3, 14, 3, 2, 26>>)}
+           \cup {OidEnc(<<1, 2, 156, 10197, 1, x>>) : x \in {301, 401, 501, 502, 503, 504}} \cup {OidEnc(<<1, 2, 156, 10197, 1, 301, x>>) : x \in {1, 2, 3}}
+           \cup {OidEnc(<<1, 2, 156, 10197, 1, 401, x>>) : x \in {1, 2}} \cup {OidEnc(<<1, 3, 101, x>>) : x \in {110, 111, 112, 113}}
+OidLast(x) == ((0..15) \cup ({x - 2, x - 1, x + 1, x + 2} \cap (0..127))) \ {x}
 NodeLevel(b, ns) ==
   \E i \in 1..Len(ns) :
      LET n == ns[i]
@@ -87,6 +100,11 @@ NodeLevel(b, ns) ==
         \/ (n.cons /\ Step(M!Indef(b, ns, i), Desc("indef", n.off, i, c)))
         \/ \E k \in M!ResizeTo(n) : Step(M!Resize(b, ns, i, k), Desc("resize", n.off, k, c))
         \/ (b[n.off + 1] = 2 /\ n.cl <= 33 /\ \E v \in IntVals(art) : Step(M!SetValue(b, ns, i, v), Desc("setint", n.off, Len(v), c)))
+        \* an OBJECT IDENTIFIER moved to its registered neighbours: the last arc swept over 0..15 and +-2 (sibling algorithms of one
+        \* family differ in the last arc; a table that knows more identifiers than the code behind it can serve fails only there)
+        \/ (b[n.off + 1] = 6 /\ n.cl >= 2 /\ \E v \in OidLast(b[n.off + n.hl + n.cl]) :
+               Step(M!SubstByte(b, n.off + n.hl + n.cl, v), Desc("setoid", n.off, v, c)))
+        \/ (b[n.off + 1] = 6 /\ \E o \in OidDict : Step(M!SetValue(b, ns, i, o), Desc("setoid-reg", n.off, Len(o), c)))
 
 (* the unmutated artefact itself (vacuity guard of the replayer: its primary entry points must accept it) *)
 Valid == /\ nmut = 0
